@@ -490,3 +490,34 @@ Example C13_witness_gap_transparent :
   map (degap_bm [x2d] (bs "GA-UGCA-U"%bs)) [mk_bm 1 5 (bs "A-UG"%bs) (Some 1); mk_bm 5 9 (bs "A-UG"%bs) (Some (-1))]
   = [mk_bm 1 4 (bs "AUG"%bs) (Some 1); mk_bm 4 7 (bs "AUG"%bs) (Some (-1))].
 Proof. exact (conj eq_refl (conj eq_refl (conj eq_refl eq_refl))). Qed.
+
+(* gap transparency with a start offset, strand by strand: the offset is a column like any other and is translated by the residue
+   numbering of the strand it counts on (forward strand: of the sequence, backward strand: of the reverse complement) *)
+Theorem C13_gap_transparent_start : forall g ws s rfn st,
+  forallb (fun w => nonempty w && plain_word g w) ws = true ->
+  map (degap_bm g s) (fwd_list (map (compile_word (Some g)) ws) s (Z.of_nat st) (Some g) rfn)
+  = fwd_list (map (compile_word None) ws) (degap g s) (Z.of_nat (rank g s st)) None rfn /\
+  (forallb gap_char_ok g = true ->
+   map (degap_bm g s) (bwd_list (map (compile_word (Some g)) ws) s (Z.of_nat st) (Some g) rfn)
+   = bwd_list (map (compile_word None) ws) (degap g s) (Z.of_nat (rank g (rc s) st)) None rfn).
+Proof.
+  exact (fun g ws s rfn st H => conj (fwd_gap_transparent_start g ws H s rfn st) (bwd_gap_transparent_start g ws H s rfn st)).
+Qed.
+Print Assumptions C13_gap_transparent_start.
+
+(* nothing requested is lost, for any matcher (in particular the regex-tree matcher): every finditer match at a column >= start
+   whose frame is requested is an element of the result, forward strand, rf=None, backward strand *)
+Theorem C13_rx_reported : forall m s start gap rfn,
+  (forall l b e, rfn = Some l -> has_fwd l = true -> In (b, e) (finditer_m m s 0 0) -> start <= Z.of_nat b ->
+     In (frame_of (fwd_gaps gap (Some l) s start) start (Z.of_nat b)) l ->
+     In (mk_bm (Z.of_nat b) (Z.of_nat e) (slice b e s) (Some (frame_of (fwd_gaps gap (Some l) s start) start (Z.of_nat b))))
+        (matchall_m m s rfn start gap)) /\
+  (forall b e, rfn = None -> In (b, e) (finditer_m m s 0 0) -> start <= Z.of_nat b ->
+     In (mk_bm (Z.of_nat b) (Z.of_nat e) (slice b e s) None) (matchall_m m s rfn start gap)) /\
+  (forall l b e, rfn = Some l -> has_bwd l = true -> In (b, e) (finditer_m m (rc s) 0 0) -> start <= Z.of_nat b ->
+     In (-1 * frame_of (bwd_gaps gap (rc s) start) start (Z.of_nat b) - 1) l ->
+     In (mk_bm (Z.of_nat (length (rc s)) - Z.of_nat e) (Z.of_nat (length (rc s)) - Z.of_nat b) (slice b e (rc s))
+           (Some (-1 * frame_of (bwd_gaps gap (rc s) start) start (Z.of_nat b) - 1)))
+        (matchall_m m s rfn start gap)).
+Proof. exact reported_m. Qed.
+Print Assumptions C13_rx_reported.
